@@ -36,6 +36,15 @@ def SG.has (g : SG) (a b : Nat) : Bool := (g.lookup a b).isSome
 
 def SG.addNode (g : SG) (w : Int) : SG × Nat := ({ g with nodes := g.nodes ++ [w] }, g.n)
 
+/-- a structure whose node index type has `m` values (`u8`: 256; `m = 0`: `usize`, no bound) is FULL when it
+holds `m` nodes: the next node could not be named.  `add_node` then raises the documented panic and leaves the
+structure unchanged (commit 8cab180, the repair of finding D31). -/
+def full (m n : Nat) : Bool := m != 0 && decide (m ≤ n)
+
+/-- `add_node` for an index type with `m` values: `none` = the documented panic, nothing changes -/
+def SG.addNodeCap (m : Nat) (g : SG) (w : Int) : Option (SG × Nat) :=
+  if full m g.n then none else some (g.addNode w)
+
 /-- `add_edge`: `Err` (unchanged) for an out-of-range endpoint, `false` (unchanged) for an existing
 edge, otherwise the edge is there afterwards -/
 def SG.addEdge (g : SG) (a b : Nat) (w : Int) : SG × Except (Nat × Nat) Bool :=
@@ -122,5 +131,14 @@ def ML.addNodeFrom (g : ML) (es : List (Nat × Int)) : ML × Nat :=
   (es.foldl (fun g e => (g.push i e.1 e.2).1) g1, i)
 
 def ML.clear (_ : ML) : ML := {}
+
+/-- `add_node` / `add_node_with_capacity` / `Build::add_node` for an index type with `m` values: `none` = the
+documented panic of a `full` list, nothing changes -/
+def ML.addNodeCap (m : Nat) (g : ML) : Option (ML × Nat) :=
+  if full m g.n then none else some g.addNode
+
+/-- `add_node_from_edges` for an index type with `m` values -/
+def ML.addNodeFromCap (m : Nat) (g : ML) (es : List (Nat × Int)) : Option (ML × Nat) :=
+  if full m g.n then none else some (g.addNodeFrom es)
 
 end PetgraphModel.AppendSpec
